@@ -370,13 +370,18 @@ func init() {
 			// accumulator edges: initial zero value and Coins.Add(acc, [NewCoin(asset.Denom, old.Sub(new))])
 			var addCall *ssa.Call
 			okEdges := true
-			for _, ed := range phi.Edges {
-				t := fa.Term(ed)
+			// the accumulator variable may be several phis (loop header, and the merge a `continue` in an index loop
+			// introduces): its non-phi incoming values are judged
+			cluster, leaves := phiCluster(fa, acc)
+			inCluster := func(t *Term) bool {
+				p, ok := t.Instr.(*ssa.Phi)
+				return t.Op == "phi" && ok && cluster[p]
+			}
+			for _, t := range leaves {
 				switch {
 				case t.Op == "const" && t.Name == "nil":
 				case t.Op == "zero":
-				case t.Eq(acc):
-				case t.IsCall("sdk.Coins.Add") && len(t.Args) == 2 && t.Args[0].Eq(acc):
+				case t.IsCall("sdk.Coins.Add") && len(t.Args) == 2 && inCluster(t.Args[0]):
 					addCall, _ = t.Instr.(*ssa.Call)
 					el := singleCoin(t.Args[1])
 					okCoin := el != nil && el.IsCall("sdk.NewCoin") && len(el.Args) == 2
@@ -421,9 +426,8 @@ func init() {
 				}
 				// counter idiom: n == 0 where n++ dominates every accumulation
 				if g.Pos && g.Cond.Op == "binop" && g.Cond.Name == "==" && g.Cond.Args[1].Op == "const" && g.Cond.Args[1].Name == "0" && g.Cond.Args[0].Op == "phi" {
-					cnt := g.Cond.Args[0].Instr.(*ssa.Phi)
-					for _, ed := range cnt.Edges {
-						if b, ok := ed.(*ssa.BinOp); ok && fa.Term(b.X).Eq(g.Cond.Args[0]) && fa.Dominates(b, addCall) {
+					for _, b := range counterIncrements(fa, g.Cond.Args[0]) {
+						if fa.Dominates(b, addCall) {
 							return true
 						}
 					}
@@ -587,4 +591,43 @@ func firstUnmarshalInto(fn *ssa.Function, a *ssa.Alloc) ssa.Instruction {
 		}
 	}
 	return nil
+}
+
+// counterIncrements: the additions `n + c` that feed the counter variable whose value the phi term t is (looking
+// through the merge phis that `continue` statements introduce).
+func counterIncrements(fa *FuncAnalysis, t *Term) []*ssa.BinOp {
+	root, ok := t.Instr.(*ssa.Phi)
+	if !ok {
+		return nil
+	}
+	cluster := map[*ssa.Phi]bool{}
+	var leaves []ssa.Value
+	var visit func(p *ssa.Phi)
+	visit = func(p *ssa.Phi) {
+		if cluster[p] {
+			return
+		}
+		cluster[p] = true
+		for _, ed := range p.Edges {
+			if q, ok := ed.(*ssa.Phi); ok {
+				visit(q)
+			} else {
+				leaves = append(leaves, ed)
+			}
+		}
+	}
+	visit(root)
+	var out []*ssa.BinOp
+	seen := map[*ssa.BinOp]bool{}
+	for _, l := range leaves {
+		b, ok := l.(*ssa.BinOp)
+		if !ok || b.Op != token.ADD || seen[b] {
+			continue
+		}
+		if p, isPhi := b.X.(*ssa.Phi); isPhi && cluster[p] {
+			seen[b] = true
+			out = append(out, b)
+		}
+	}
+	return out
 }
